@@ -13,3 +13,18 @@ package fr
 //@ ensures[result] result == z
 //@ modifies z
 //@ end
+
+// SetString accepts exactly the numeric strings that math/big accepts with the base selected by the prefix (base 0),
+// sets z to the residue modulo q of the integer the string denotes, and otherwise returns (nil, error) and leaves z
+// as it was. The parser of math/big is the pair of uninterpreted functions bigparseok / bigparse of the characters;
+// the pool is an opaque call.
+//@ func Element.SetString
+//@ tags any
+//@ layer bigint big.Int
+//@ option nomerge
+//@ option opaque Get Put
+//@ ensures[accepts] isnil(result1) == bigparseok(number)
+//@ ensures[value] isnil(result1) ==> reg(val(z)) == bigmod(bigparse(number), q) && val(z) < q && same(result0, z)
+//@ ensures[rejected] !isnil(result1) ==> isnil(result0) && forall(i, 0, N, z[i] == old(z[i]))
+//@ modifies z
+//@ end
